@@ -74,7 +74,7 @@ def run(ctx, chk):
             named = set(re.findall(r"LabelType::(CODE|DATA)", m.group(1)))
             rest = both - named
             return next(iter(rest)) if len(rest) == 1 and named else None
-        m = re.search(r"matches (?:[A-Za-z_:]*::)?LabelType::(CODE|DATA)", desc)
+        m = re.search(r"matches (?:Some\(|\()*(?:[A-Za-z_:]*::)?LabelType::(CODE|DATA)", desc)
         if m:
             return m.group(1) if truth else next(iter(both - {m.group(1)}))
         m = re.search(r"(==|!=)\s*(?:[A-Za-z_:]*::)?LabelType::(CODE|DATA)|LabelType::(CODE|DATA)\s*(==|!=)", desc)
